@@ -131,7 +131,7 @@ func c09PipelineCase(p vbase.Params, r *vbase.Result, rng *vbase.Rng, caseNo int
 	inconclusive := false
 	// quiesce: event loop drained, voting-machine mutex free and no verification in flight except the held ones
 	quiesce := func() {
-		deadline := time.Now().Add(30 * time.Second)
+		deadline := time.Now().Add(120 * time.Second)
 		stable := 0
 		for stable < 3 {
 			subj.Node.Drain(10000)
